@@ -1,1 +1,17 @@
-fn main() { println!("{:?}", dvh::ieee::selftest()); }
+use dashu_ratio::RBig;
+use dashu_int::{IBig, UBig};
+fn main() {
+    let a = RBig::from(IBig::from(10));
+    let b = RBig::from(IBig::from(20));
+    println!("simplest_in(10,20) = {}", RBig::simplest_in(a, b));
+    let a = RBig::from(IBig::from(1000000));
+    let b = RBig::from(IBig::from(1000002));
+    println!("simplest_in(1000000,1000002) = {}", RBig::simplest_in(a, b));
+    let a = RBig::from_parts(IBig::from(21), UBig::from(2u8));
+    let b = RBig::from_parts(IBig::from(23), UBig::from(2u8));
+    println!("simplest_in(21/2,23/2) = {}", RBig::simplest_in(a, b));
+    println!("simplest_from_f32(-8.0716796e29) = {:?}", RBig::simplest_from_f32(f32::from_bits(0xf123019b)));
+    println!("simplest_from_f32(3e10) = {:?}", RBig::simplest_from_f32(3e10));
+    println!("simplest_from_f32(16777218) = {:?}", RBig::simplest_from_f32(16777218.0));
+    println!("simplest_from_f32(33554436) = {:?}", RBig::simplest_from_f32(33554436.0));
+}
